@@ -38,6 +38,8 @@ Diff(P, rec, hh, res, notes, full) ==
   IF res # rec.res THEN "result"
   ELSE IF "checked" \notin DOMAIN notes /\ ~Host(P)!NotesOk(NotesOf(rec), notes) THEN "notifications"
   ELSE IF ~full THEN ""
+  ELSE IF seen.nerr # rec.seen.nerr THEN "errors"
+  ELSE IF seen.warns # rec.seen.warns THEN "warnings"
   ELSE IF seen.text # rec.seen.text THEN "text"
   ELSE IF seen.tags # rec.seen.tags THEN "tags"
   ELSE IF seen.can # rec.seen.can THEN "can"
@@ -65,6 +67,7 @@ Answer(P, op) ==
     [] op.op = "reset" -> Host(P)!Reset(h)
     [] op.op = "observe" -> Host(P)!Observe(h, op.i, op.name)
     [] op.op = "remove_observer" -> Host(P)!Unobserve(h, op.i, op.name)
+    [] op.op = "set_handler" -> Host(P)!SetHandler(h)
 
 DoneN(P, rec, hh, res, notes, full) ==
   LET d == Diff(P, rec, hh, res, notes, full) IN
@@ -132,8 +135,12 @@ Play ==
                IF Look(P)!LoopOver(r)
                THEN LET e1 == Look(P)!EndCont([m |-> r.m, snap |-> r.snap, log |-> r.log]) IN
                     \* (the finishing slice of a sliced continue is the continue)
+                    \* messages: handed to the handler now, or kept; an error without a handler fails the call (C13)
+                    LET d == Host(P)!Deliver(h, e1.m) IN
                     IF c.ops[oi].calls # e1.log THEN Fail("Host.external calls", [calls |-> e1.log])
-                    ELSE DoneN(P, c.ops[oi], [h EXCEPT !.m = e1.m, !.async = FALSE], "ok", Host(P)!NotesAfterCont(h, e1.m), TRUE)
+                    ELSE IF c.ops[oi].msgs # d.msgs THEN Fail("Host.messages", [msgs |-> d.msgs, res |-> d.res])
+                    ELSE DoneN(P, c.ops[oi], [h EXCEPT !.m = d.m, !.async = FALSE], d.res,
+                               IF d.res = "ok" THEN Host(P)!NotesAfterCont(h, d.m) ELSE Host(P)!NoNotes, TRUE)
                ELSE /\ e' = [m |-> r.m, snap |-> r.snap, log |-> r.log] /\ steps' = steps + 1 /\ UNCHANGED <<ci, h, oi, ph, ev, nbad>>
 
 Finish ==
